@@ -81,29 +81,33 @@ def Wr.checkRemaining (K : Core σ) (s : Wr σ) (dataLen : Nat) : Bool :=
       let blocks := (res + K.bs - 1) / K.bs       -- div_ceil
       !(blocks > remBlocks)
 
+/-- the body of `try_apply_keystream_inout` after `check_remaining` has passed.
+    (`if rem != 0 { … split_at(rem) … }`: with `rem = 0` the split is `([], data)`, so the split is
+    written unconditionally.) -/
+def Wr.applyUnchecked (K : Core σ) (w : Nat) (s : Wr σ) (data : Bytes) : Bytes × Wr σ :=
+  let bs := K.bs
+  let pos := s.pos
+  let rem := bs - pos
+  let dataLen := data.length
+  if rem ≠ 0 ∧ dataLen ≤ rem then
+    (xorB data (rng s.buffer pos dataLen), s.setPos (pos + dataLen))
+  else
+    let left := data.take rem
+    let data1 := data.drop rem
+    let outL := xorB left (s.buffer.drop pos)
+    let blocks := chunks bs data1
+    let tail := chunksTail bs data1
+    let r := applyBlocks K w s.core blocks
+    if tail.length = 0 then
+      (outL ++ r.1.flatten, ({ s with core := r.2 } : Wr σ).setPos bs)
+    else
+      let g := K.genBlock r.2                              -- write_keystream_block(&mut self.buffer)
+      let outT := xorB tail (g.1.take tail.length)
+      (outL ++ r.1.flatten ++ outT, ({ core := g.2, buffer := g.1 } : Wr σ).setPos tail.length)
+
 /-- `try_apply_keystream_inout`: `none` = Err (nothing modified). -/
 def Wr.apply (K : Core σ) (w : Nat) (s : Wr σ) (data : Bytes) : Option (Bytes × Wr σ) :=
-  if !(s.checkRemaining K data.length) then none
-  else
-    let bs := K.bs
-    let pos := s.pos
-    let rem := bs - pos
-    let dataLen := data.length
-    if rem ≠ 0 ∧ dataLen ≤ rem then
-      some (xorB data (rng s.buffer pos dataLen), s.setPos (pos + dataLen))
-    else
-      let left := if rem ≠ 0 then data.take rem else []
-      let data1 := if rem ≠ 0 then data.drop rem else data
-      let outL := xorB left (s.buffer.drop pos)
-      let blocks := chunks bs data1
-      let tail := chunksTail bs data1
-      let r := applyBlocks K w s.core blocks
-      if tail.length = 0 then
-        some (outL ++ r.1.flatten, ({ s with core := r.2 } : Wr σ).setPos bs)
-      else
-        let g := K.genBlock r.2                              -- write_keystream_block(&mut self.buffer)
-        let outT := xorB tail (g.1.take tail.length)
-        some (outL ++ r.1.flatten ++ outT, ({ core := g.2, buffer := g.1 } : Wr σ).setPos tail.length)
+  if s.checkRemaining K data.length then some (s.applyUnchecked K w data) else none
 
 /-- `try_seek::<SN>(p)`; `p` is a non-negative value of the seek-number type; `false` = Err. -/
 def Wr.seek (K : Core σ) (s : Wr σ) (p : Nat) : Bool × Wr σ :=
